@@ -160,6 +160,13 @@ fn jobs(set: &str) -> Vec<Job> {
             dirs.push(one_col(PropSpec::C, vec![], vec![Val::C(p, c), Val::C(0, 1)]));
         }
     }
+    // every entry in the same pack (the pack id becomes the column's default, 1 or 2 bytes wide),
+    // and every entry at the same address (the whole address is a default)
+    for p in [0u16, 1, 255, 256, 65_535] {
+        for (c0, c1) in [(0u32, 1u32), (255, 256), (7, 7), (65_536, u32::MAX)] {
+            dirs.push(one_col(PropSpec::C, vec![], vec![Val::C(p, c0), Val::C(p, c1)]));
+        }
+    }
     // variants: zero-width, empty, 33-byte padding
     let vmenu: Vec<Vec<(PropSpec, bool)>> = vec![vec![], vec![(PropSpec::U, true)], vec![(PropSpec::U, false)], vec![(PropSpec::U, true), (PropSpec::U, false)], vec![(PropSpec::A { prefix: 31, store: 0 }, true)], vec![(PropSpec::S, true), (PropSpec::C, true)]];
     for a in 0..vmenu.len() {
